@@ -514,6 +514,9 @@ func (r *RigS) taskClass(id string, tasks map[string]*meta.TaskInfo) string {
 	if r.st.Ambiguous[id] {
 		return "ambiguous"
 	}
+	if r.st.Overlap[id] {
+		return "overlap"
+	}
 	return ""
 }
 
@@ -527,6 +530,10 @@ func (r *RigS) classOf(tasks map[string]*meta.TaskInfo, ids ...string) string {
 			return "_record_rewritten_after_delete"
 		case "ambiguous":
 			out = "_after_ambiguous_store_error"
+		case "overlap":
+			if out == "" {
+				out = "_background_transition_overlaps_request"
+			}
 		}
 	}
 	return out
@@ -538,6 +545,9 @@ func (r *RigS) anyClass(tasks map[string]*meta.TaskInfo) string {
 		ids = append(ids, id)
 	}
 	for id := range r.st.Rewritten {
+		ids = append(ids, id)
+	}
+	for id := range r.st.Overlap {
 		ids = append(ids, id)
 	}
 	sort.Strings(ids)
@@ -616,7 +626,21 @@ func (r *RigS) checkViews(tasks map[string]*meta.TaskInfo, sn server.VerifSnapsh
 				continue
 			}
 			if strings.Contains(raw, rec.Task) {
-				r.s.Violate("C11", "delete_leftover"+r.classOf(tasks, rec.Task), "task %s was deleted but the store still holds records of it", rec.Task)
+				var kinds []string
+				// (drop-message readiness records are neither the task record nor a checkpoint: not judged here)
+				for _, k := range []string{"task_info", "task_position"} {
+					if strings.Contains(raw, k+"/"+rec.Task+"/") || strings.Contains(raw, k+"/"+rec.Task+"\"") {
+						kinds = append(kinds, k)
+					}
+				}
+				cls := r.classOf(tasks, rec.Task)
+				if len(kinds) == 1 && kinds[0] == "task_position" && r.st.RewrittenPos[rec.Task] {
+					// a checkpoint update that was in flight when the delete came wrote the checkpoint back after the delete transaction
+					cls = "_checkpoint_rewritten_after_delete"
+				}
+				if len(kinds) > 0 {
+					r.s.Violate("C11", "delete_leftover"+cls, "task %s was deleted but the store still holds records of it (%v)", rec.Task, kinds)
+				}
 			}
 		}
 	}
@@ -630,7 +654,7 @@ func (r *RigS) checkViews(tasks map[string]*meta.TaskInfo, sn server.VerifSnapsh
 	}
 	for uri, ts := range running {
 		if _, ok := sn.Entities[uri]; !ok && len(ts) > 0 {
-			r.s.Violate("C11", "entity_missing", "target %s has running tasks %v but no replication entity", uri, ts)
+			r.s.Violate("C11", "entity_missing"+r.classOf(tasks, ts...), "target %s has running tasks %v but no replication entity", uri, ts)
 		}
 	}
 	// readers of tasks that are not running
